@@ -241,6 +241,10 @@ def run(facts, chk, tier, only=None):
             else:
                 chk.violation('C06.pred', 'C06.pred:filter:%s' % nm, where=MSA + '::filter', detail='violated: ' + why)
 
+    # the counts compared with the threshold are recounted in the requested mode first (shared with C10.recount)
+    from . import c10
+    chk.guard('C06.order', 'C06.order:recount:run', lambda: c10.check_recount(facts, chk, 'C06.order:recount'))
+
     # ---------------------------------------------------------------- masking
     def mask():
         mv = [(bb, t) for bb, t in filt.calls() if 'mapv_inplace' in (t.callee.name or '')]
